@@ -9,7 +9,8 @@ EXTENDS Palette, Json
 CONSTANT MaxExtras
 
 ExtraLabels == {Nat2I(0), Nat2I(6), Nat2I(23), Nat2I(24), Nat2I(255), Z2I(256), Neg2I(1), Neg2I(2), Neg2I(24), Neg2I(25), Neg2I(257),
-                Tx(<<97>>), Tx(<<98>>), Tx(<<97, 97>>), I63max, N63}
+                Tx(<<97>>), Tx(<<98>>), Tx(<<97, 97>>), I63max, N63,
+                Tx(<<195, 169>>)}     \* one character, two bytes: next to "aa" it separates byte length from character count (round 6)
 Orders == {"Lexicographic", "LengthFirstLexicographic"}
 Base(sub) == [EmptyKey EXCEPT !.kty = Assigned("KeyType", "EC2"),
                 !.kid = IF 1 \in sub THEN <<1>> ELSE <<>>,
